@@ -299,7 +299,8 @@ OnApiRet(st, e) ==
           THEN IF Bad(held, "C09_NeverTwice") THEN Fail(st, "C09_NeverTwice") ELSE AddService(st1, v, e.t, "ann")
           ELSE IF Bad(~held, "C09_SpuriousFailure") THEN Fail(st, "C09_SpuriousFailure")
                ELSE IF Bad(e.exc # "ServiceNameAlreadyRegistered", "C09_WrongException") THEN Fail(st, "C09_WrongException")
-               ELSE st1
+               \* nothing of the refused description is ever announced (C09_NeverAnnounced); what the registered services own is
+               ELSE [st1 EXCEPT !.rejected = @ \cup (SvcRecs(v) \ Owned(st))]
 
 OnApi(st, e) ==
   CASE e.op = "reg" ->
